@@ -116,8 +116,32 @@ def directed():
             hs.append({"mints": [{"name": "ma", "fee": fee, "policy": "min1"}, {"name": "mb", "fee": 0, "policy": "min1"}], "wallets": wl,
                        "ops": ops + ([{"op": "sendlocked", "w": "w1", "m": "ma", "amt": 6, "to": "w3", "sigall": True}, {"op": "receive", "w": "w3", "tok": "t7", "swap": True},
                                       {"op": "send", "w": "w1", "m": "ma", "amt": 4}, {"op": "receive", "w": "w3", "tok": "t8"},
-                                      {"op": "sendlocked", "w": "w1", "m": "ma", "amt": 6, "to": "w3", "sigall": True}, {"op": "receive", "w": "w3", "tok": "t9", "swap": True}]
+                                      {"op": "sendlocked", "w": "w1", "m": "ma", "amt": 6, "to": "w3", "sigall": True}, {"op": "receive", "w": "w3", "tok": "t9", "swap": True},
+                                      # too little left after the swap fee for the mint-to-mint part: the receive fails after the token is used up
+                                      {"op": "sendlocked", "w": "w1", "m": "ma", "amt": 2, "to": "w2", "sigall": True}, {"op": "receive", "w": "w2", "tok": "t10", "swap": False},
+                                      {"op": "sendlocked", "w": "w1", "m": "ma", "amt": 2, "to": "w3", "sigall": True}, {"op": "receive", "w": "w3", "tok": "t11", "swap": True},
+                                      {"op": "reclaim", "w": "w3"}]
                                      if trust is not None else [])})
+    # the same failing receive while the token's mint is not in the wallet's list
+    hs.append({"mints": [{"name": "ma", "fee": 100, "policy": "min1"}, {"name": "mb", "fee": 0, "policy": "min1"}],
+               "wallets": [ws[0], ws[1], dict(ws[2], trust=[])],
+               "ops": [{"op": "mint", "w": "w1", "m": "ma", "amt": 64}, {"op": "sendlocked", "w": "w1", "m": "ma", "amt": 2, "to": "w3", "sigall": True},
+                       {"op": "receive", "w": "w3", "tok": "t1", "swap": True}, {"op": "reclaim", "w": "w3"},
+                       {"op": "sendlocked", "w": "w1", "m": "ma", "amt": 9, "to": "w3", "sigall": True}, {"op": "receive", "w": "w3", "tok": "t2", "swap": True}]})
+    # mint-to-mint swaps (MintSwap, receive with swap to the trusted mint) whose Lightning payment fails, errs or stays in flight;
+    # then reclaim / remove-spent and a restore
+    for fee in (0, 100):
+        for pay, status in ((["failed"], ["failed"]), (["pending"], []), (["error"], ["pending"]), (["error"], ["failed"])):
+            ops = [{"op": "mint", "w": "w1", "m": "ma", "amt": 64}, {"op": "send", "w": "w1", "m": "ma", "amt": 12},
+                   {"op": "sendlocked", "w": "w1", "m": "ma", "amt": 9, "to": "w3"},
+                   {"op": "mintswap", "w": "w1", "from": "ma", "to": "mb", "amt": 10, "pay": pay, "status": status},
+                   {"op": "receive", "w": "w3", "tok": "t1", "swap": True, "pay": pay, "status": status},
+                   {"op": "receive", "w": "w3", "tok": "t2", "swap": True, "pay": pay, "status": status},
+                   {"op": "reclaim", "w": "w1"}, {"op": "removespent", "w": "w1"},
+                   {"op": "mintswap", "w": "w1", "from": "ma", "to": "mb", "amt": 5},
+                   {"op": "receive", "w": "w3", "tok": "t1", "swap": True}, {"op": "receive", "w": "w3", "tok": "t2", "swap": True},
+                   {"op": "restore", "w": "w1"}]
+            hs.append({"mints": [{"name": "ma", "fee": fee, "policy": "min1"}, {"name": "mb", "fee": 0, "policy": "min1"}], "wallets": ws, "ops": ops})
     # proofs on the old and on the new keyset after a rotation, spent together: sends around and above what the old keyset holds
     for fee in (0, 100):
         for old, new, amts in ((3, 12, (4, 2, 5)), (7, 9, (8, 3)), (5, 10, (6, 6)), (1, 14, (2, 9)), (15, 16, (16, 10))):
